@@ -466,4 +466,87 @@ example :
                               .call 0 (.send 8) true, .broadcast 0, .delegate 0]
     s.created = 1 ∧ s.attempts = [some 7, some 8] ∧ s.log = [(0, .send 8)] := by decide
 
+/-! ### once created, always delegated (after fix F21) -/
+
+/-- a creation error is never left standing next to an existing stream -/
+def NoStale (s : St) : Prop := s.stream = true → s.initErr = false
+
+theorem noStale_initStream {s : St} (h : NoStale s) (m : Option Nat) (ok : Bool) : NoStale (initStream s m ok).1 := by
+  unfold initStream
+  by_cases hs : s.stream = true
+  · simp only [hs, ↓reduceIte]; exact h
+  · cases ok
+    · simp only [hs, Bool.false_eq_true, ↓reduceIte]; intro h'; cases h'
+    · simp only [hs, Bool.false_eq_true, ↓reduceIte]; intro _; rfl
+
+theorem noStale_of_eq {s s' : St} (h : NoStale s) (e1 : s'.stream = s.stream) (e2 : s'.initErr = s.initErr) : NoStale s' := by
+  unfold NoStale; rw [e1, e2]; exact h
+
+theorem noStale_waitCheck {s : St} (h : NoStale s) (t : Tid) (c : Call) : NoStale (waitCheck s t c).1 := by
+  unfold waitCheck
+  simp only
+  split <;> (try split) <;> (try split) <;> exact noStale_of_eq h (by simp [setPc]; try split <;> rfl) (by simp [setPc]; try split <;> rfl)
+
+theorem noStale_step {s : St} (h : NoStale s) (st : Step) : NoStale (step s st).1 := by
+  cases st with
+  | call t c ok =>
+    simp only [step]
+    split
+    · exact h
+    · cases c with
+      | send m => exact noStale_of_eq (noStale_initStream h (some m) ok) rfl rfl
+      | closeSend => exact noStale_of_eq (noStale_initStream h none ok) rfl rfl
+      | recv => exact noStale_waitCheck h t _
+      | header => exact noStale_waitCheck h t _
+  | broadcast t =>
+    simp only [step]
+    split
+    · split <;> exact noStale_of_eq h rfl rfl
+    · exact h
+  | delegate t =>
+    simp only [step]
+    split
+    · exact noStale_of_eq h rfl rfl
+    · exact h
+  | recheck t =>
+    simp only [step]
+    split
+    · exact noStale_waitCheck h t _
+    · exact h
+  | cancel => simp only [step]; split <;> exact noStale_of_eq h rfl rfl
+  | watcherFire => simp only [step]; split <;> exact noStale_of_eq h rfl rfl
+  | trailer => exact h
+  | context => exact h
+
+theorem noStale_run (c : Bool) (steps : List Step) : NoStale (run (init c) steps) := by
+  unfold run
+  suffices h : ∀ s, NoStale s → NoStale (steps.foldl (fun s st => (step s st).1) s) from h _ (by intro h; cases h)
+  induction steps with
+  | nil => intro s h; exact h
+  | cons st steps ih => intro s h; exact ih _ (noStale_step h st)
+
+/-- **C12** once the underlying stream exists — also when an earlier creation attempt had failed and
+    also after the call's context has ended — a RecvMsg / Header entered by an idle thread does not
+    wait and does not answer in the stream's place: its next step delegates the call to the stream -/
+theorem recv_after_creation_delegates (c : Bool) (steps : List Step) (t : Tid) (call : Call)
+    (hcall : call = .recv ∨ call = .header) (ok : Bool)
+    (hs : (run (init c) steps).stream = true) (hidle : pcOf (run (init c) steps) t = .idle) :
+    (step (run (init c) steps) (.call t call ok)).2 = none ∧
+    (step (step (run (init c) steps) (.call t call ok)).1 (.delegate t)).2 = some (.delegated call) := by
+  have hn := noStale_run c steps hs
+  generalize run (init c) steps = s at hs hidle hn
+  have hw : (waitCheck s t call).2 = none ∧ (waitCheck s t call).1.pcs t = .delegating call ∧
+      (waitCheck s t call).1.log = s.log := by
+    unfold waitCheck
+    simp only
+    by_cases hb : (s.watcher == .notStarted && s.cancellable) = true
+    · simp [hb, hn, hs, setPc]
+    · simp [hb, hn, hs, setPc]
+  have hidle' : (pcOf s t != Pc.idle) = false := by simp [hidle]
+  have hstep : step s (.call t call ok) = waitCheck s t call := by
+    rcases hcall with h | h <;> subst h <;> simp [step, hidle']
+  rw [hstep]
+  refine ⟨hw.1, ?_⟩
+  simp only [step, pcOf, hw.2.1]
+
 end GcpVerif.Stream
